@@ -80,6 +80,9 @@ impl Dest {
     pub fn ops(&self) -> usize {
         self.0.borrow().ops
     }
+    pub fn write_calls(&self) -> usize {
+        self.0.borrow().write_calls
+    }
     pub fn log_len(&self) -> usize {
         self.0.borrow().log.len()
     }
